@@ -135,6 +135,7 @@ func (s opSemigroup[T]) Combine(a, b T) T { return s.op(a, b) }
 type record struct {
 	Inst  string          `json:"inst"`
 	E     json.RawMessage `json:"e"`
+	Inner json.RawMessage `json:"inner"` // empty element of the inner monoid of a nested constructor (else 0)
 	A     json.RawMessage `json:"a"`
 	B     json.RawMessage `json:"b"`
 	Res   any             `json:"res"`
@@ -145,11 +146,12 @@ type record struct {
 }
 
 type genCase struct {
-	Inst string          `json:"inst"`
-	E    json.RawMessage `json:"e"`
-	A    json.RawMessage `json:"a"`
-	B    json.RawMessage `json:"b"`
-	Want json.RawMessage `json:"want"`
+	Inst  string          `json:"inst"`
+	E     json.RawMessage `json:"e"`
+	Inner json.RawMessage `json:"inner"`
+	A     json.RawMessage `json:"a"`
+	B     json.RawMessage `json:"b"`
+	Want  json.RawMessage `json:"want"`
 }
 
 type experiment func(c genCase, r *record) error
@@ -220,78 +222,163 @@ func monoidExp[T any](d dom[T], inst func(e T) monoid.Monoid[T]) experiment {
 	}
 }
 
+// nestedExp: the constructor is handed something that belongs to an inner Monoid whose empty element is `inner`
+func nestedExp[T any](d dom[T], inst func(e, inner T) monoid.Monoid[T]) experiment {
+	return func(c genCase, r *record) error {
+		inner, err := d.dec(c.Inner)
+		if err != nil {
+			return err
+		}
+		return monoidExp(d, func(e T) monoid.Monoid[T] { return inst(e, inner) })(c, r)
+	}
+}
+
+// a top-level function as the argument of semigroup.From
+func subTop(a, b int) int {
+	r := a - b
+	calls = append(calls, call{Which: "op", Args: []any{a, b}, Res: r})
+	return r
+}
+
+type entry struct {
+	dom    string // "int" | "str" | "num": Algebra.tla InstTab[..].dom
+	nested bool   // Algebra.tla Nested
+	run    experiment
+}
+
 func concat(a, b string) string { return a + b }
 func sub(a, b int) int          { return a - b }
 
 // experiments builds every instance of Algebra.tla's InstTab over the given int table.
-func experiments(tab []int) map[string]experiment {
+func experiments(tab []int) map[string]entry {
 	id := intDom(tab)
 	lenP := func(s string) int { return len(s) }
 	tabP := func(v int) string { return strTab[(id.enc(v).(int)*7)%len(strTab)] }
 	flipP := func(v int) int { return tab[len(tab)-id.enc(v).(int)] }
-	return map[string]experiment{
-		"eq.Int":     eqExp(id, func() eq.Eq[int] { return eq.Int }),
-		"eq.String":  eqExp(strDom, func() eq.Eq[string] { return eq.String }),
-		"ord.Int":    ordExp(id, func() ord.Ord[int] { return ord.Int }),
-		"ord.String": ordExp(strDom, func() ord.Ord[string] { return ord.String }),
+	rotP := func(v int) int { return tab[(id.enc(v).(int)*3)%len(tab)] }
+	opS := func() func(string, string) string { return logged2("op", strDom, strDom.enc, concat) }
+	opN := func() func(int, int) int { return logged2("op", numDom, numDom.enc, sub) }
+	I := func(x experiment) entry { return entry{dom: "int", run: x} }
+	S := func(x experiment) entry { return entry{dom: "str", run: x} }
+	N := func(x experiment) entry { return entry{dom: "num", run: x} }
+	return map[string]entry{
+		"eq.Int":     I(eqExp(id, func() eq.Eq[int] { return eq.Int })),
+		"eq.String":  S(eqExp(strDom, func() eq.Eq[string] { return eq.String })),
+		"ord.Int":    I(ordExp(id, func() ord.Ord[int] { return ord.Int })),
+		"ord.String": S(ordExp(strDom, func() ord.Ord[string] { return ord.String })),
 
-		"eq.From/int":  eqExp(id, func() eq.Eq[int] { return eq.From[int](logged2("f", id, encBool, less[int])) }),
-		"eq.From/str":  eqExp(strDom, func() eq.Eq[string] { return eq.From[string](logged2("f", strDom, encBool, less[string])) }),
-		"ord.From/int": ordExp(id, func() ord.Ord[int] { return ord.From[int](logged2("f", id, encOrd, rev[int])) }),
-		"ord.From/str": ordExp(strDom, func() ord.Ord[string] { return ord.From[string](logged2("f", strDom, encOrd, rev[string])) }),
+		"eq.From/int":  I(eqExp(id, func() eq.Eq[int] { return eq.From[int](logged2("f", id, encBool, less[int])) })),
+		"eq.From/str":  S(eqExp(strDom, func() eq.Eq[string] { return eq.From[string](logged2("f", strDom, encBool, less[string])) })),
+		"ord.From/int": I(ordExp(id, func() ord.Ord[int] { return ord.From[int](logged2("f", id, encOrd, rev[int])) })),
+		"ord.From/str": S(ordExp(strDom, func() ord.Ord[string] { return ord.From[string](logged2("f", strDom, encOrd, rev[string])) })),
 
-		"eq.ContraMap/len/eq.Int": eqExp(strDom, func() eq.Eq[string] {
+		// From wrapping the method values of the built-in instances
+		"eq.From/eq.Int.Equal":        I(eqExp(id, func() eq.Eq[int] { return eq.From[int](eq.Int.Equal) })),
+		"eq.From/eq.String.Equal":     S(eqExp(strDom, func() eq.Eq[string] { return eq.From[string](eq.String.Equal) })),
+		"ord.From/ord.Int.Compare":    I(ordExp(id, func() ord.Ord[int] { return ord.From[int](ord.Int.Compare) })),
+		"ord.From/ord.String.Compare": S(ordExp(strDom, func() ord.Ord[string] { return ord.From[string](ord.String.Compare) })),
+
+		"eq.ContraMap/len/eq.Int": S(eqExp(strDom, func() eq.Eq[string] {
 			return eq.ContraMap[int, string]{Eq: eq.Int, ContraMap: logged1("proj", strDom, numDom, lenP)}
-		}),
-		"eq.ContraMap/len/rel": eqExp(strDom, func() eq.Eq[string] {
+		})),
+		"eq.ContraMap/len/rel": S(eqExp(strDom, func() eq.Eq[string] {
 			return eq.ContraMap[int, string]{Eq: eq.From[int](logged2("base", numDom, encBool, less[int])), ContraMap: logged1("proj", strDom, numDom, lenP)}
-		}),
-		"ord.ContraMap/len/ord.Int": ordExp(strDom, func() ord.Ord[string] {
+		})),
+		"ord.ContraMap/len/ord.Int": S(ordExp(strDom, func() ord.Ord[string] {
 			return ord.ContraMap[int, string]{Ord: ord.Int, ContraMap: logged1("proj", strDom, numDom, lenP)}
-		}),
-		"ord.ContraMap/len/rev": ordExp(strDom, func() ord.Ord[string] {
+		})),
+		"ord.ContraMap/len/rev": S(ordExp(strDom, func() ord.Ord[string] {
 			return ord.ContraMap[int, string]{Ord: ord.From[int](logged2("base", numDom, encOrd, rev[int])), ContraMap: logged1("proj", strDom, numDom, lenP)}
-		}),
-		"eq.ContraMap/tab/eq.String": eqExp(id, func() eq.Eq[int] {
+		})),
+		"eq.ContraMap/tab/eq.String": I(eqExp(id, func() eq.Eq[int] {
 			return eq.ContraMap[string, int]{Eq: eq.String, ContraMap: logged1("proj", id, strDom, tabP)}
-		}),
-		"ord.ContraMap/tab/ord.String": ordExp(id, func() ord.Ord[int] {
+		})),
+		"ord.ContraMap/tab/ord.String": I(ordExp(id, func() ord.Ord[int] {
 			return ord.ContraMap[string, int]{Ord: ord.String, ContraMap: logged1("proj", id, strDom, tabP)}
-		}),
-		"ord.ContraMap/flip/ord.Int": ordExp(id, func() ord.Ord[int] {
+		})),
+		"ord.ContraMap/flip/ord.Int": I(ordExp(id, func() ord.Ord[int] {
 			return ord.ContraMap[int, int]{Ord: ord.Int, ContraMap: logged1("proj", id, id, flipP)}
-		}),
-		"eq.ContraMap/flip/rel": eqExp(id, func() eq.Eq[int] {
+		})),
+		"eq.ContraMap/flip/rel": I(eqExp(id, func() eq.Eq[int] {
 			return eq.ContraMap[int, int]{Eq: eq.From[int](logged2("base", id, encBool, less[int])), ContraMap: logged1("proj", id, id, flipP)}
-		}),
+		})),
 
-		"semigroup.From/concat": semigroupExp(strDom, func() semigroup.Semigroup[string] {
-			return semigroup.From[string](logged2("op", strDom, strDom.enc, concat))
-		}),
-		"semigroup.From/sub": semigroupExp(numDom, func() semigroup.Semigroup[int] {
-			return semigroup.From[int](logged2("op", numDom, numDom.enc, sub))
-		}),
-		"monoid.FromOp/concat": monoidExp(strDom, func(e string) monoid.Monoid[string] {
-			return monoid.FromOp(e, logged2("op", strDom, strDom.enc, concat))
-		}),
-		"monoid.FromOp/sub": monoidExp(numDom, func(e int) monoid.Monoid[int] {
-			return monoid.FromOp(e, logged2("op", numDom, numDom.enc, sub))
-		}),
-		"monoid.From/concat": monoidExp(strDom, func(e string) monoid.Monoid[string] {
-			return monoid.From[string](e, opSemigroup[string]{logged2("op", strDom, strDom.enc, concat)})
-		}),
-		"monoid.From/sub": monoidExp(numDom, func(e int) monoid.Monoid[int] {
-			return monoid.From[int](e, semigroup.From[int](logged2("op", numDom, numDom.enc, sub)))
-		}),
+		// two levels: the base of a ContraMap is itself a ContraMap; the outer projection ("proj") runs first
+		"ord.ContraMap/rot/ord.ContraMap/flip/ord.Int": I(ordExp(id, func() ord.Ord[int] {
+			inner := ord.ContraMap[int, int]{Ord: ord.Int, ContraMap: logged1("proj2", id, id, flipP)}
+			return ord.ContraMap[int, int]{Ord: inner, ContraMap: logged1("proj", id, id, rotP)}
+		})),
+		"ord.ContraMap/flip/ord.ContraMap/rot/rev": I(ordExp(id, func() ord.Ord[int] {
+			inner := ord.ContraMap[int, int]{Ord: ord.From[int](logged2("base", id, encOrd, rev[int])), ContraMap: logged1("proj2", id, id, rotP)}
+			return ord.ContraMap[int, int]{Ord: inner, ContraMap: logged1("proj", id, id, flipP)}
+		})),
+		"eq.ContraMap/rot/eq.ContraMap/flip/rel": I(eqExp(id, func() eq.Eq[int] {
+			inner := eq.ContraMap[int, int]{Eq: eq.From[int](logged2("base", id, encBool, less[int])), ContraMap: logged1("proj2", id, id, flipP)}
+			return eq.ContraMap[int, int]{Eq: inner, ContraMap: logged1("proj", id, id, rotP)}
+		})),
+		"eq.ContraMap/tab/eq.ContraMap/len/eq.Int": I(eqExp(id, func() eq.Eq[int] {
+			inner := eq.ContraMap[int, string]{Eq: eq.Int, ContraMap: logged1("proj2", strDom, numDom, lenP)}
+			return eq.ContraMap[string, int]{Eq: inner, ContraMap: logged1("proj", id, strDom, tabP)}
+		})),
+		"ord.ContraMap/tab/ord.ContraMap/len/rev": I(ordExp(id, func() ord.Ord[int] {
+			inner := ord.ContraMap[int, string]{Ord: ord.From[int](logged2("base", numDom, encOrd, rev[int])), ContraMap: logged1("proj2", strDom, numDom, lenP)}
+			return ord.ContraMap[string, int]{Ord: inner, ContraMap: logged1("proj", id, strDom, tabP)}
+		})),
+
+		"semigroup.From/concat": S(semigroupExp(strDom, func() semigroup.Semigroup[string] { return semigroup.From[string](opS()) })),
+		"semigroup.From/sub":    N(semigroupExp(numDom, func() semigroup.Semigroup[int] { return semigroup.From[int](opN()) })),
+		// functions of other provenance: method values of a Monoid / a Semigroup / a struct, a top-level function
+		"semigroup.From/monoid.Combine/concat": S(semigroupExp(strDom, func() semigroup.Semigroup[string] {
+			return semigroup.From[string](monoid.FromOp("!", opS()).Combine)
+		})),
+		"semigroup.From/semigroup.Combine/sub": N(semigroupExp(numDom, func() semigroup.Semigroup[int] {
+			return semigroup.From[int](semigroup.From[int](opN()).Combine)
+		})),
+		"semigroup.From/struct.Combine/concat": S(semigroupExp(strDom, func() semigroup.Semigroup[string] {
+			return semigroup.From[string](opSemigroup[string]{opS()}.Combine)
+		})),
+		"semigroup.From/func/sub": N(semigroupExp(numDom, func() semigroup.Semigroup[int] { return semigroup.From[int](subTop) })),
+
+		"monoid.FromOp/concat": S(monoidExp(strDom, func(e string) monoid.Monoid[string] { return monoid.FromOp(e, opS()) })),
+		"monoid.FromOp/sub":    N(monoidExp(numDom, func(e int) monoid.Monoid[int] { return monoid.FromOp(e, opN()) })),
+		"monoid.From/concat": S(monoidExp(strDom, func(e string) monoid.Monoid[string] {
+			return monoid.From[string](e, opSemigroup[string]{opS()})
+		})),
+		"monoid.From/sub": N(monoidExp(numDom, func(e int) monoid.Monoid[int] {
+			return monoid.From[int](e, semigroup.From[int](opN()))
+		})),
+
+		// the Semigroup / function handed to the constructor belongs to a Monoid with ANOTHER empty element
+		"monoid.From/monoid.FromOp/concat": {dom: "str", nested: true, run: nestedExp(strDom, func(e, inner string) monoid.Monoid[string] {
+			return monoid.From[string](e, monoid.FromOp(inner, opS()))
+		})},
+		"monoid.From/monoid.FromOp/sub": {dom: "num", nested: true, run: nestedExp(numDom, func(e, inner int) monoid.Monoid[int] {
+			return monoid.From[int](e, monoid.FromOp(inner, opN()))
+		})},
+		"monoid.From/monoid.From/concat": {dom: "str", nested: true, run: nestedExp(strDom, func(e, inner string) monoid.Monoid[string] {
+			return monoid.From[string](e, monoid.From[string](inner, semigroup.From[string](opS())))
+		})},
+		"monoid.From/monoid.From/sub": {dom: "num", nested: true, run: nestedExp(numDom, func(e, inner int) monoid.Monoid[int] {
+			return monoid.From[int](e, monoid.From[int](inner, opSemigroup[int]{opN()}))
+		})},
+		"monoid.FromOp/monoid.Combine/concat": {dom: "str", nested: true, run: nestedExp(strDom, func(e, inner string) monoid.Monoid[string] {
+			return monoid.FromOp(e, monoid.FromOp(inner, opS()).Combine)
+		})},
+		"monoid.FromOp/monoid.Combine/sub": {dom: "num", nested: true, run: nestedExp(numDom, func(e, inner int) monoid.Monoid[int] {
+			return monoid.FromOp(e, monoid.From[int](inner, semigroup.From[int](opN())).Combine)
+		})},
 	}
 }
 
-func runCase(exps map[string]experiment, c genCase, out *vio.Out) error {
+func runCase(exps map[string]entry, c genCase, out *vio.Out) error {
 	ex, ok := exps[c.Inst]
 	if !ok {
 		return fmt.Errorf("harness: unknown instance %q", c.Inst)
 	}
-	r := record{Inst: c.Inst, E: c.E, A: c.A, B: c.B, Want: c.Want}
+	if c.Inner == nil {
+		c.Inner = raw(0)
+	}
+	r := record{Inst: c.Inst, E: c.E, Inner: c.Inner, A: c.A, B: c.B, Want: c.Want}
 	calls = []call{}
 	var err error
 	func() {
@@ -300,7 +387,7 @@ func runCase(exps map[string]experiment, c genCase, out *vio.Out) error {
 				r.Panic = fmt.Sprint(p)
 			}
 		}()
-		err = ex(c, &r)
+		err = ex.run(c, &r)
 	}()
 	r.Calls = calls
 	out.Put(r)
@@ -428,18 +515,22 @@ func TestRandom(t *testing.T) {
 		}
 		na, nb, ne := rng.Intn(2001)-1000, rng.Intn(2001)-1000, rng.Intn(2001)-1000
 		for _, name := range names {
-			c := genCase{Inst: name, E: raw(0)}
-			switch {
-			case name == "semigroup.From/sub" || name == "monoid.FromOp/sub" || name == "monoid.From/sub":
+			c := genCase{Inst: name, E: raw(0), Inner: raw(0)}
+			switch en := exps[name]; en.dom {
+			case "num":
 				c.E, c.A, c.B = raw(ne), raw(na), raw(nb)
-			case name == "semigroup.From/concat" || name == "monoid.FromOp/concat" || name == "monoid.From/concat":
+				if en.nested {
+					c.Inner = raw(ne + 1 + rng.Intn(50)) // never the given empty
+				}
+			case "str":
 				c.E, c.A, c.B = raw(se), raw(sa), raw(sb)
-			case name == "eq.Int" || name == "ord.Int" || name == "eq.From/int" || name == "ord.From/int" ||
-				name == "eq.ContraMap/tab/eq.String" || name == "ord.ContraMap/tab/ord.String" ||
-				name == "ord.ContraMap/flip/ord.Int" || name == "eq.ContraMap/flip/rel":
+				if en.nested {
+					c.Inner = raw(append(append([]int{}, se...), '!'))
+				}
+			case "int":
 				c.A, c.B = raw(ia), raw(ib)
 			default:
-				c.A, c.B = raw(sa), raw(sb)
+				t.Fatalf("harness: instance %q has no domain", name)
 			}
 			if err := runCase(exps, c, out); err != nil {
 				t.Fatal(err)
